@@ -378,7 +378,33 @@ def clause4_pong(ctx, P):
                "kept in service" % (bad.ret_const() if bad else "?"), witness=bad.witness() if bad else None)
 
 
+def clause5c_header_state_is_consumed(ctx, P):
+    """which header a value belongs to is remembered in current_header_field by the field callback and is good for exactly one
+    value: every path of the value callback resets it.  The field callback leaves it alone for header names it does not know, so a
+    value callback that returns without the reset (for an empty value, say) lets the value of the NEXT, unrelated header be taken
+    for the key or the version - an exchange that is no valid upgrade gets 101"""
+    hv = P.fn("websocket.c:websocket_upgrade_on_header_value")
+    UNKNOWN = Q.enum(P, "HEADER_UNKNOWN")
+    bad = None
+    n = 0
+    for v in Q.path_views(ctx, P, hv):
+        n += 1
+        reset = False
+        for _, i in v.insts():
+            if i.op == "store":
+                d = P.term(hv, i.a[1])
+                if d[0] == "field" and d[3] == "current_header_field" and P.const_int(i.a[0]) == UNKNOWN:
+                    reset = True
+        if not reset:
+            bad = v
+    ctx.ob("C12.5 R-TYPESTATE", hv, "header-state-is-good-for-one-value", bad is None and n >= 2,
+           "websocket_upgrade_on_header_value() returns on a path that does not reset current_header_field: the value of the next "
+           "header the field callback does not know is evaluated as if it belonged to the remembered one",
+           witness=bad.witness() if bad else None)
+
+
 def clause5_handshake(ctx, P, cg):
+    clause5c_header_state_is_consumed(ctx, P)
     sur = P.fn("websocket.c:send_upgrade_response")
     hc = P.fn("websocket.c:websocket_upgrade_on_headers_complete")
     sk = P.fn("websocket.c:save_websocket_key", required=False)
@@ -825,6 +851,8 @@ def run(ctx):
         clause8b_fragment_state(ctx, P)
         from .c13 import clause11_target_is_the_path      # 'a valid upgrade for the configured target': the target in any legal form
         clause11_target_is_the_path(ctx, P)
+        from .c13 import clause7b_parser_limits
+        clause7b_parser_limits(ctx, P)
         clause9_misc(ctx, P, cg)
         clause10_header_values(ctx, P, cg)
         from .c06 import clause11b_bitfield_copies
